@@ -68,10 +68,18 @@ class CascadeChecker:
         if sig_ptrs.signature_info.signature_type == SignatureType.HMAC_WITH_SHA256:
             verify_hmac(pub_key_bits, sig_ptrs)
         elif sig_ptrs.signature_info.signature_type == SignatureType.SHA256_WITH_RSA:
-            pub_key = RSA.import_key(bytes(pub_key_bits))
+            try:
+                pub_key = RSA.import_key(bytes(pub_key_bits))
+            except ValueError:
+                # The certificate does not carry a key of the type the signature claims
+                return False
             return verify_rsa(pub_key, sig_ptrs)
         elif sig_ptrs.signature_info.signature_type == SignatureType.SHA256_WITH_ECDSA:
-            pub_key = ECC.import_key(bytes(pub_key_bits))
+            try:
+                pub_key = ECC.import_key(bytes(pub_key_bits))
+            except ValueError:
+                # The certificate does not carry a key of the type the signature claims
+                return False
             return verify_ecdsa(pub_key, sig_ptrs)
         else:
             return False
